@@ -28,6 +28,9 @@ EXPLANATION = (
     'such a method) has, for a 2D file, no such event reachable and only dimensionality-error exits; symmetrically '
     'for 2D-only methods; the emulator binds iline/xline/depth_slice to a refusing object on the 2D branch. C09.6: '
     'the 2D hash region (C20.1) and the 2D bounds obligations (C14).')
+EXPLANATION += (
+    ' ADDED: C09.1 also decides the per-group trace count semantically (rule of C01.9). C09.2: a specialised 2D loader called without a blockshape test is a violation (not a vanished anchor).'
+)
 ASSUMPTIONS = ['ZFP 2D fixed-rate streams are 4x4 cells in C order', 'names denote what they say']
 NOT_DECIDED = 'Bitwise equality with two-dimensional ZFP coding; header values.'
 
